@@ -174,10 +174,11 @@ type merged struct {
 	rules                          []string
 	exhaustive                     map[string]bool
 	capped                         bool
+	casesBy                        map[string]int64
 }
 
 func mergeStats(workDir string, specs []*checkSpec) merged {
-	m := merged{classes: map[string]map[string]int64{}, exhaustive: map[string]bool{}}
+	m := merged{classes: map[string]map[string]int64{}, exhaustive: map[string]bool{}, casesBy: map[string]int64{}}
 	for _, cs := range specs {
 		files, _ := filepath.Glob(filepath.Join(workDir, cs.Test+".*.stats.json"))
 		sort.Strings(files)
@@ -194,6 +195,7 @@ func mergeStats(workDir string, specs []*checkSpec) merged {
 			}
 			m.evaluations += s.Evaluations
 			m.cases += s.Cases
+			m.casesBy[cs.Test] += s.Cases
 			m.nontrivial += s.NonTrivial
 			if m.classes[cs.Test] == nil {
 				m.classes[cs.Test] = map[string]int64{}
@@ -434,9 +436,14 @@ func main() {
 	}
 	var jobs []job
 	var specs []*checkSpec
+	var fuzzSpecs []*checkSpec
 	for i := range ps.Checks {
 		cs := &ps.Checks[i]
 		if *tier == "quick" && cs.ThoroughOnly {
+			continue
+		}
+		if cs.Fuzz != "" {
+			fuzzSpecs = append(fuzzSpecs, cs)
 			continue
 		}
 		specs = append(specs, cs)
@@ -475,9 +482,16 @@ func main() {
 	}
 	wg.Wait()
 
+	// 2b. native fuzz campaigns (thorough tier), one after the other, all cores each
+	var fuzzResults []fuzzResult
+	for _, cs := range fuzzSpecs {
+		fuzzResults = append(fuzzResults, runFuzz(cs, workDir, bin))
+	}
+
 	// 3. classify
 	violations := 0
 	inconclusive := 0
+	extraFailures := 0
 	var lines []string
 	known := readKnownFindings()
 	knownHit := map[string]bool{}
@@ -511,7 +525,7 @@ func main() {
 			}
 			if fb, err := os.ReadFile(r.failFile); err == nil && strings.Contains(r.log, "--- FAIL") && !crashed(r.log) {
 				content = fb
-			} else if crashed(r.log) || r.exit == 66 {
+			} else if crashed(r.log) || r.exit == 66 || r.exit == 3 {
 				if r.exit == 66 || strings.Contains(r.log, "DATA RACE") {
 					// race reports carry their scenario in the fail file if the check wrote one
 					if fb, err := os.ReadFile(r.failFile); err == nil {
@@ -553,6 +567,12 @@ func main() {
 				continue
 			}
 			seenReplay[path] = true
+			if violations >= 3 {
+				// enough confirmed reproductions for one run; further failing shards are listed, not replayed
+				_ = os.Remove(path)
+				extraFailures++
+				continue
+			}
 			// confirm in a fresh process (several attempts for schedule-dependent checks)
 			attempts := 2
 			if r.check.Race || r.check.Flaky {
@@ -577,8 +597,22 @@ func main() {
 					}
 				}
 			}
+			replayLimit := 2 * time.Minute
+			if r.exit == 3 {
+				replayLimit = time.Minute // a hang: the replay must exceed a minute on its own (twice)
+				attempts = 2
+			}
+			hangs := 0
 			for a := 0; a < attempts && !confirmed; a++ {
-				bad, inc, _ := replayFile(b, path, 2*time.Minute)
+				bad, inc, out := replayFile(b, path, replayLimit)
+				if r.exit == 3 {
+					// bounded time: only a replay that again does not finish counts, and it must do so twice
+					if bad && strings.Contains(out, "[replay exceeded") {
+						hangs++
+						confirmed = hangs >= 2
+					}
+					continue
+				}
 				if inc {
 					break
 				}
@@ -596,6 +630,51 @@ func main() {
 		}
 	}
 
+	fuzzEvidence := []map[string]interface{}{}
+	for _, fr := range fuzzResults {
+		fuzzEvidence = append(fuzzEvidence, map[string]interface{}{"target": fr.target, "seconds": fr.seconds, "execs": fr.execs, "new_interesting": fr.interesting, "exit": fr.exit})
+		if fr.exit == 0 {
+			continue
+		}
+		if fr.content == nil {
+			inconclusive++
+			lines = append(lines, fmt.Sprintf("INCONCLUSIVE: fuzz target %s failed without a usable input; log %s", fr.target, fr.logFile))
+			continue
+		}
+		var cc struct {
+			Property string `json:"property"`
+		}
+		_ = json.Unmarshal(fr.content, &cc)
+		owner := cc.Property
+		if owner == "" {
+			owner = *property
+		}
+		path := saveReplay(owner, fr.content)
+		confirmed := false
+		for a := 0; a < 2 && !confirmed; a++ {
+			bad, inc, _ := replayFile(bin, path, 2*time.Minute)
+			if inc {
+				break
+			}
+			confirmed = bad
+		}
+		if confirmed && owner == *property {
+			violations++
+			lines = append(lines, fmt.Sprintf("VIOLATION property=%s replay=%s", owner, path))
+			lines = append(lines, "  found by native fuzz target "+fr.target)
+		} else if confirmed {
+			// the shared target also carries the oracle of a sibling property: not this check's verdict
+			lines = append(lines, fmt.Sprintf("NOTE: fuzz target %s found a violation of %s (replay %s); run that property's check", fr.target, owner, path))
+		} else {
+			inconclusive++
+			_ = os.Remove(path)
+			lines = append(lines, fmt.Sprintf("INCONCLUSIVE: fuzz target %s reported a failure that did not reproduce; log %s", fr.target, fr.logFile))
+		}
+	}
+
+	if extraFailures > 0 {
+		lines = append(lines, fmt.Sprintf("NOTE: %d more shard(s) reported failures that were not replayed (3 violations already confirmed)", extraFailures))
+	}
 	// known findings of this property: replay each; still failing -> KNOWN-FINDING line
 	for _, kf := range known {
 		if kf.property != *property {
@@ -616,7 +695,7 @@ func main() {
 		tot := m.classes[fl.Check][fl.Denominator]
 		num := m.classes[fl.Check][fl.Class]
 		if fl.Denominator == "" {
-			tot = m.cases
+			tot = m.casesBy[fl.Check]
 		}
 		if tot == 0 || float64(num)/float64(tot) < fl.Min {
 			inconclusive++
@@ -648,6 +727,7 @@ func main() {
 			"rapid_passed":                    passed,
 			"inconclusive_events":             inconclusive,
 			"known_findings_hit":              keysB(knownHit),
+			"fuzz":                            fuzzEvidence,
 		},
 	}
 	if len(m.samples) == 0 {
@@ -668,6 +748,109 @@ func main() {
 	case inconclusive > 0:
 		os.Exit(2)
 	}
+}
+
+type fuzzResult struct {
+	target      string
+	seconds     int
+	execs       int64
+	interesting int64
+	exit        int
+	content     []byte
+	logFile     string
+}
+
+var fuzzStatRe = regexp.MustCompile(`execs: (\d+) .*new interesting: (\d+)`)
+
+// runFuzz runs one native fuzz campaign (all cores) and extracts a failing input, if any.
+func runFuzz(cs *checkSpec, workDir, bin string) fuzzResult {
+	if v, err := strconv.Atoi(os.Getenv("VERIF_FUZZ_SECONDS")); err == nil && v > 0 {
+		cs.FuzzSeconds = v
+	}
+	fr := fuzzResult{target: cs.Fuzz, seconds: cs.FuzzSeconds, logFile: filepath.Join(workDir, cs.Fuzz+".fuzz.log")}
+	propsDir := filepath.Join(verifDir, "harness", "props")
+	crashDir := filepath.Join(propsDir, "testdata", "fuzz", cs.Fuzz)
+	_ = os.RemoveAll(crashDir)
+	failFile := filepath.Join(workDir, cs.Fuzz+".fail.json")
+	_ = os.Remove(failFile)
+	cmd := exec.Command("go", "test", "-vet=off", "-run", "^$", "-fuzz", "^"+cs.Fuzz+"$", "-fuzztime", fmt.Sprintf("%ds", cs.FuzzSeconds),
+		"-test.fuzzcachedir", filepath.Join(verifDir, ".build", "fuzzcache"), ".")
+	cmd.Dir = propsDir
+	cmd.Env = env("VERIF_FAIL_OUT="+failFile, "VERIF_REPO=/repo", "VERIF_BIN="+bin, "VERIF_TIER=thorough", "VERIF_STATS_DIR=", "VERIF_JOURNAL=")
+	var buf bytes.Buffer
+	cmd.Stdout, cmd.Stderr = &buf, &buf
+	cmd.SysProcAttr = &syscall.SysProcAttr{Setpgid: true}
+	done := make(chan error, 1)
+	if err := cmd.Start(); err != nil {
+		fr.exit = 2
+		return fr
+	}
+	go func() { done <- cmd.Wait() }()
+	select {
+	case err := <-done:
+		if err != nil {
+			fr.exit = 1
+		}
+	case <-time.After(time.Duration(cs.FuzzSeconds)*time.Second + 10*time.Minute):
+		_ = syscall.Kill(-cmd.Process.Pid, syscall.SIGKILL)
+		<-done
+		fr.exit = 2
+	}
+	out := buf.String()
+	_ = os.WriteFile(fr.logFile, buf.Bytes(), 0o644)
+	for _, m := range fuzzStatRe.FindAllStringSubmatch(out, -1) {
+		fr.execs, _ = strconv.ParseInt(m[1], 10, 64)
+		fr.interesting, _ = strconv.ParseInt(m[2], 10, 64)
+	}
+	if fr.exit == 1 {
+		if b, err := os.ReadFile(failFile); err == nil {
+			fr.content = b
+		} else if files, _ := filepath.Glob(filepath.Join(crashDir, "*")); len(files) > 0 {
+			fr.content = crasherToReplay(files[0])
+		}
+	}
+	_ = os.RemoveAll(crashDir)
+	return fr
+}
+
+// crasherToReplay converts a Go fuzz corpus file into a generic "Crash" replay case.
+func crasherToReplay(file string) []byte {
+	b, err := os.ReadFile(file)
+	if err != nil {
+		return nil
+	}
+	var strs []string
+	flags := 0
+	for _, line := range strings.Split(string(b), "\n")[1:] {
+		i, j := strings.Index(line, "("), strings.LastIndex(line, ")")
+		if i < 0 || j <= i {
+			continue
+		}
+		lit := line[i+1 : j]
+		switch {
+		case strings.HasPrefix(line, "byte("):
+			if r, _, _, err := strconv.UnquoteChar(strings.Trim(lit, "'"), '\''); err == nil {
+				flags = int(r)
+			}
+		default:
+			if s, err := strconv.Unquote(lit); err == nil {
+				strs = append(strs, s)
+			}
+		}
+	}
+	if len(strs) == 0 {
+		return nil
+	}
+	c := map[string]interface{}{"check": "Crash", "path": strs[0], "funcs": flags&1 == 1 || len(strs) > 1, "accessor": len(strs) == 1 && flags&2 == 2,
+		"use_number": len(strs) > 1 && flags&1 == 1, "strs": []string{"native-fuzz crasher " + filepath.Base(file)}}
+	if !utf8.ValidString(strs[0]) {
+		c["path_raw"] = []byte(strs[0])
+	}
+	if len(strs) > 1 {
+		c["doc_text"] = strs[1]
+	}
+	out, _ := json.MarshalIndent(c, "", " ")
+	return out
 }
 
 func jobChecks(jobs interface{}, r shardResult) int {
@@ -692,7 +875,7 @@ func raceReport(log string) string {
 }
 
 func crashed(log string) bool {
-	return strings.Contains(log, "fatal error:") || strings.Contains(log, "\npanic: ") && !strings.Contains(log, "--- FAIL") ||
+	return strings.Contains(log, "HANG-DETECTED") || strings.Contains(log, "fatal error:") || strings.Contains(log, "\npanic: ") && !strings.Contains(log, "--- FAIL") ||
 		strings.Contains(log, "signal: killed") || strings.Contains(log, "goroutine stack exceeds") || strings.Contains(log, "WARNING: DATA RACE")
 }
 
